@@ -264,7 +264,10 @@ class CallMixin:
                 if not args.static() or args.kw:
                     raise Unsupported('keyword/dynamic args to summarised constructor ' + cname)
                 return self.state_call(st, self.cfg.summaries[cname], pos)
-            if not args.static():
+            init0 = self.repo.lookup_method(ci, '__init__')
+            can_inline = (init0 is not None and init0.node.args.vararg is not None and args.dstar is None and args.star is not None
+                          and len(args.pos) + 1 >= len(init0.node.args.args) and cname in self.cfg.inline_star_ctors)
+            if not args.static() and not can_inline:
                 # constructor with dynamic *args / **kwargs: the new object is a pure function of the boxed arguments
                 s = st.fork()
                 posb, kwb = self.box_args(s, args)
@@ -386,6 +389,8 @@ class CallMixin:
         else:
             kt = Z.klass(self.box(st, v))
             self.class_term_facts(st, kt)
+        if c.k == 'seq':
+            return fn('exc_matches', R, R, B)(kt, self.box(st, c))
         cr = self.class_ref(st, c)
         if c.k == 'ref':
             return fn('exc_matches', R, R, B)(kt, cr)      # class or tuple of classes held in a variable
